@@ -361,6 +361,41 @@ def sc_pipe_eof_inside_message(env):
     return {"recv": res, "code": p.exitcode}
 
 
+def w_exit3(ev):
+    ev.wait()
+    sys.exit(3)
+
+
+def sc_sigchld_handler_reaps_child(env):
+    """a SIGCHLD handler that calls os.waitpid(-1) steals the exit status from multiprocessing"""
+    got = []
+
+    def on_chld(signum, frame):
+        try:
+            while True:
+                pid, st = env.os.waitpid(-1, os.WNOHANG)
+                if pid == 0:
+                    break
+                got.append(st)
+        except ChildProcessError:
+            pass
+
+    env.signal.signal(signal.SIGCHLD, on_chld)
+    ev = env.mp.Event()
+    p = env.mp.Process(target=w_exit3, args=(ev,))
+    p.start()
+    ev.set()
+    n = 0
+    while not got and n < 500:
+        env.sleep(0.01)
+        n += 1
+    code = p.exitcode
+    alive = p.is_alive()
+    p.join()
+    env.signal.signal(signal.SIGCHLD, signal.SIG_DFL)
+    return {"statuses": got, "exitcode": code, "alive": alive, "after_join": p.exitcode}
+
+
 def w_sq_child(q, n):
     for i in range(n):
         q.put(i)
@@ -456,7 +491,7 @@ SCENARIOS = [
     sc_normal_exit, sc_exception_flushes, sc_sys_exit_3, sc_sigkill_prefix, sc_get_timeout_empty, sc_per_worker_fifo,
     sc_dead_means_flushed, sc_exitcode_while_alive, sc_terminate, sc_join_before_drain_big, sc_killed_holding_lock,
     sc_torn_frame_blocks_get, sc_pool_map, sc_pool_exception, sc_pool_worker_killed, sc_pool_sys_exit_in_task, sc_pool_close_join,
-    sc_pipe_eof, sc_simplequeue, sc_condition_turns, sc_joinable_queue, sc_reader_lock_leak, sc_pipe_eof_inside_message,
+    sc_pipe_eof, sc_simplequeue, sc_condition_turns, sc_joinable_queue, sc_reader_lock_leak, sc_pipe_eof_inside_message, sc_sigchld_handler_reaps_child,
 ]
 
 
@@ -472,6 +507,8 @@ class RealEnv:
 
         assert multiprocessing.get_start_method() == "fork"
         self.mp = multiprocessing
+        self.os = os
+        self.signal = signal
 
     def sleep(self, s):
         time.sleep(s)
@@ -564,8 +601,12 @@ class SimEnv:
     real = False
 
     def __init__(self, world, mod):
+        from sim import world_realign
+
         self.world = world
         self.mp = mod
+        self.os = world_realign.SIM_OS
+        self.signal = world_realign.SIM_SIGNAL
 
     def __deepcopy__(self, memo):
         return self
